@@ -222,6 +222,8 @@ struct AllocBFS {
         char note[160];
         std::snprintf(note, sizeof note, "bfs %s: states=%llu transitions=%llu residues=%u", subject.c_str(), (unsigned long long)n_states, (unsigned long long)n_trans, unsigned(residues.size()));
         reg().notes.push_back(note);
+        reg().bfs_states += n_states;
+        reg().bfs_transitions += n_trans;
         for (std::map<std::string, Stat*>::iterator it = stats.begin(); it != stats.end(); ++it)
             if (it->second->samples.empty()) add_sample(*it->second, "{\"states\":" + u64s(n_states) + ",\"transitions\":" + u64s(n_trans) + "}");
     }
